@@ -200,6 +200,85 @@ fn positions(p: &Program) -> BTreeMap<NameKey, Pos> {
     m
 }
 
+
+// ------------------------------------------------------------------------------------------------
+// text templates: constructs G-prog does not generate (closures called from nested blocks, comprehension
+// variables, named arguments, f-string interpolation of renamed locals, enum payload bindings, field defaults)
+// ------------------------------------------------------------------------------------------------
+
+struct Template {
+    source: &'static str,
+    idents: &'static [(&'static str, Pos)],
+}
+
+const TEMPLATES: &[Template] = &[
+    Template {
+        source: "def applyf(nparam: int) -> int:\n    thunkv = () => 40\n    addv = (xarg) => xarg + 1\n    mut totalv = 0\n    if nparam > 0:\n        totalv = thunkv() + nparam\n    for ivar in range(nparam):\n        totalv = totalv + thunkv() + addv(ivar)\n    mut cntv = 0\n    while cntv < 2:\n        cntv += 1\n        totalv += addv(cntv)\n    return totalv\n\ndef main() -> None:\n    println(applyf(2))\n",
+        idents: &[("applyf", Pos::Function), ("nparam", Pos::Param), ("thunkv", Pos::Local), ("addv", Pos::Local), ("xarg", Pos::Param), ("totalv", Pos::Local), ("ivar", Pos::LoopVar), ("cntv", Pos::Local)],
+    },
+    Template {
+        source: "enum Kinde:\n    Circv(int)\n    Rectv(int, int)\n\nmodel Boxm:\n    widthf: int\n    heightf: int = 2\n\n    def scalem(self, factorp: int) -> int:\n        return self.widthf * factorp + self.heightf\n\ndef sizef(shapep: Kinde) -> int:\n    match shapep:\n        case Kinde.Circv(radb):\n            return radb * 3\n        case Kinde.Rectv(wb, hb):\n            return wb * hb\n\ndef main() -> None:\n    boxv = Boxm(widthf=3)\n    println(boxv.scalem(4))\n    println(sizef(Kinde.Rectv(2, 5)))\n    println(sizef(Kinde.Circv(2)))\n    sqv = [elv * elv for elv in [1, 2, 3]]\n    println(sqv[2])\n    labelv = \"n\"\n    println(f\"{labelv}={sqv[0]}\")\n",
+        idents: &[("Kinde", Pos::EnumName), ("Circv", Pos::Variant), ("Rectv", Pos::Variant), ("Boxm", Pos::TypeName), ("widthf", Pos::Field), ("heightf", Pos::Field), ("scalem", Pos::Method), ("factorp", Pos::Param), ("sizef", Pos::Function), ("shapep", Pos::Param), ("radb", Pos::MatchBinding), ("wb", Pos::MatchBinding), ("hb", Pos::MatchBinding), ("boxv", Pos::Local), ("sqv", Pos::Local), ("elv", Pos::LoopVar), ("labelv", Pos::Local)],
+    },
+];
+
+fn replace_ident(src: &str, old: &str, new: &str) -> String {
+    // whole-word replacement (identifiers of the templates are not substrings of each other's words)
+    let mut out = String::new();
+    let b = src.as_bytes();
+    let mut i = 0;
+    let is_w = |c: u8| c.is_ascii_alphanumeric() || c == b'_';
+    while i < b.len() {
+        if src[i..].starts_with(old) && (i == 0 || !is_w(b[i - 1])) && (i + old.len() >= b.len() || !is_w(b[i + old.len()])) {
+            out.push_str(new);
+            i += old.len();
+        } else {
+            let ch = src[i..].chars().next().unwrap();
+            out.push(ch);
+            i += ch.len_utf8();
+        }
+    }
+    out
+}
+
+/// rename every identifier of `t` at position `pos` into `class` (rotating through the pool from `pick`)
+fn template_renaming(t: &Template, pos: Pos, class: Class, pick: usize, banned: &BTreeSet<(Pos, String)>) -> (String, Vec<(String, String)>) {
+    let pl = pool(class);
+    let mut used: BTreeSet<String> = t.idents.iter().map(|(n, _)| n.to_string()).collect();
+    let mut src = t.source.to_string();
+    let mut applied = Vec::new();
+    let mut j = pick;
+    for (old, p) in t.idents {
+        if *p != pos {
+            continue;
+        }
+        let new = if class == Class::CaseFlipped {
+            let n = flip_case(old);
+            if legal(&n) && !used.contains(&n) { Some(n) } else { None }
+        } else {
+            let mut f = None;
+            for _ in 0..pl.len() {
+                let cand = &pl[j % pl.len().max(1)];
+                j += 1;
+                if !used.contains(cand) && !banned.contains(&(pos, cand.clone())) {
+                    f = Some(cand.clone());
+                    break;
+                }
+            }
+            f
+        };
+        if let Some(n) = new {
+            if banned.contains(&(pos, n.clone())) {
+                continue;
+            }
+            used.insert(n.clone());
+            src = replace_ident(&src, old, &n);
+            applied.push((old.to_string(), n));
+        }
+    }
+    (src, applied)
+}
+
 fn flip_case(s: &str) -> String {
     let mut cs: Vec<char> = s.chars().collect();
     if let Some(c) = cs.first_mut() {
@@ -392,6 +471,92 @@ fn main() {
                     Err(e) => out.inconclusive(&format!("regression input {}: {e}", f.display())),
                 }
             }
+        }
+    }
+
+    // ---- template leg
+    {
+        let tprojects: Vec<Project> = TEMPLATES.iter().map(|t| Project::single("prog", t.source)).collect();
+        let touts = farm.run_many(&tprojects, Mode::CheckBuildRun);
+        struct TJob {
+            t: usize,
+            pos: Pos,
+            class: Class,
+            applied: Vec<(String, String)>,
+            source: String,
+        }
+        let mut tjobs: Vec<TJob> = Vec::new();
+        let mut tbase: Vec<Option<Obs>> = Vec::new();
+        for o in &touts {
+            tbase.push(observe(o).ok().filter(|b| b.check_ok && b.build_ok));
+        }
+        for (ti, t) in TEMPLATES.iter().enumerate() {
+            if tbase[ti].is_none() {
+                out.inconclusive(&format!("template {ti} does not build on this tree"));
+                continue;
+            }
+            for pos in POSITIONS {
+                if !t.idents.iter().any(|(_, p)| p == pos) {
+                    continue;
+                }
+                for class in CLASSES {
+                    if banned_cells.contains(&(*pos, *class)) {
+                        continue;
+                    }
+                    let count = t.idents.iter().filter(|(_, p)| p == pos).count().max(1);
+                    let pool_len = pool(*class).len();
+                    // the G-prog leg sweeps the whole keyword pool at every position; templates sample it (all of it in thorough)
+                    let full = (pool_len + count - 1) / count;
+                    let rounds = if *class == Class::RustKeyword { if args.tier == vcore::Tier::Thorough { full } else { full.min(2) } } else { 1 };
+                    for r in 0..rounds.max(1) {
+                        let (source, applied) = template_renaming(t, *pos, *class, r * count + ti * 3, &banned);
+                        if !applied.is_empty() {
+                            tjobs.push(TJob { t: ti, pos: *pos, class: *class, applied, source });
+                        }
+                    }
+                }
+            }
+        }
+        let jouts = farm.run_many(&tjobs.iter().map(|j| Project::single("prog", &j.source)).collect::<Vec<_>>(), Mode::CheckBuildRun);
+        for (j, o) in tjobs.iter().zip(jouts.iter()) {
+            ev.case(Some(util::hash_str(&j.source)));
+            ev.class("template_renaming");
+            let base = tbase[j.t].as_ref().unwrap();
+            let ob = match observe(o) {
+                Ok(ob) => ob,
+                Err(e) => {
+                    out.inconclusive(&format!("renamed template: {e}"));
+                    continue;
+                }
+            };
+            if &ob == base {
+                continue;
+            }
+            // single-identifier minimisation
+            let mut culprit: Option<(String, String, String)> = None;
+            for (old, new) in &j.applied {
+                let src = replace_ident(TEMPLATES[j.t].source, old, new);
+                let o1 = farm.run_one(&Project::single("prog", &src), Mode::CheckBuildRun);
+                if let Ok(ob1) = observe(&o1) {
+                    if &ob1 != base {
+                        culprit = Some((old.clone(), new.clone(), src));
+                        break;
+                    }
+                }
+            }
+            let by_class = matches!(j.class, Class::RustKeyword | Class::CaseFlipped);
+            let (sig, ren_src, what) = match &culprit {
+                Some((old, new, src)) if !by_class => (format!("rename:{:?}:{}", j.pos, new), src.clone(), format!("{old} -> {new}")),
+                Some((old, new, src)) => (format!("rename:{:?}:class:{:?}", j.pos, j.class), src.clone(), format!("{old} -> {new}")),
+                None => (format!("rename:{:?}:class:{:?}", j.pos, j.class), j.source.clone(), format!("{:?}", j.applied)),
+            };
+            if out.is_known(&sig) {
+                ev.exclude(&sig);
+                continue;
+            }
+            let body = serde_json::to_string_pretty(&json!({"signature": sig, "base": TEMPLATES[j.t].source, "renamed": ren_src, "renaming": what})).unwrap();
+            let detail = format!("template {}, position {:?}, class {:?}, renaming {what}\nbase: status={:?}\nrenamed: check={} build={} status={:?}\n{}", j.t, j.pos, j.class, base.status, ob.check_ok, ob.build_ok, ob.status, describe(o));
+            out.violation(&mut ev, &sig, "json", &body, &detail);
         }
     }
 
